@@ -203,6 +203,12 @@ Section Store.
         end
     end.
 
+  (* The sink requests of the response are written AFTER the timers are registered and the mutations applied; a
+     failing sink write makes processEventBatch return the error, but what was applied stays applied - so the state
+     does not depend on the sink at all (process_batch has no sink argument). [batch_error]: is an error returned. *)
+  Definition batch_error (sink_fails : bool) (o : outcome) : bool :=
+    match o with BFailed => true | BCalled _ _ => sink_fails | BNoCall => false end.
+
   (* ---------------------------------------------------------------- histories *)
 
   Record sys := { sy_db : kv_st K; sy_saved : list (N * kv_st K); sy_trace : list (request * response) }.
